@@ -177,7 +177,7 @@ class Check:
             else:
                 nkids = sum(1 for n in world["nodes"] if n["path"].rsplit("/", 1)[0] == d)
                 faults.append({"fail": {"call": "readdir", "path": d, "errno": "EIO", "arg": rng.randint(0, max(0, nkids - 1))}})
-        shape = rng.choice(["streamed", "streamed", "ordered", "count", "name"])
+        shape = rng.choice(["streamed", "streamed", "ordered", "count", "name", "attrs"])
         return {"sub": "A", "world": world, "roots": roots, "plan": env, "faults": faults, "shape": shape}
 
     def gen_b(self, rng, tier):
@@ -418,6 +418,9 @@ class Check:
                 q = "select count(*)" + self.from_clause(roots) + " into list"
             elif shape == "ordered":
                 q = "select path" + self.from_clause(roots) + " order by path into list"
+            elif shape == "attrs":
+                # attribute columns that look at the entry themselves (is_empty lists a directory): only the path column is compared
+                q = "select path, is_empty, size" + self.from_clause(roots) + " into list"
             else:
                 q = "select " + col + self.from_clause(roots) + " into list"
             fkind = "+".join(sorted({(f.get("fail") or {}).get("call", "") + (f.get("fail") or {}).get("errno", "") + (f.get("mutate") or {}).get("action", "") for f in case["faults"]})) or "none"
@@ -457,7 +460,7 @@ class Check:
                         return int(rows[0][0])
                     except ValueError:
                         return None
-                return collections.Counter(r[0] for r in res.rows(1))
+                return collections.Counter(r[0] for r in res.rows(3 if shape == "attrs" else 1))
 
             # control: nothing fails -> status 0, empty stderr, exact rows
             res0 = sb.run([q], plan=self.plan_with(case, faults=False))
